@@ -25,6 +25,10 @@ def run(tier):
     rep.rule('R10.5', 'observer: every recorded observation is carried by the next QueryResp(s): field mapping node -> wire, every announced descriptor serialised, '
              'truncation keeps the unsent remainder, only reported observations are released', floor=40)
     rep.rule('R10.3', 'emitter: the field the observer records as source identity carries the emitter\'s own address; ToS/opcode reach the observer', floor=7)
+    rep.rule('R10.6', 'what B recorded is still there when the Query comes: the interface-record lookup hands out the record keyed by the interface, creates one only on a miss and '
+             'never stores into (or re-links) an existing record', floor=3)
+    from .state_record import check_state_for_iface
+    check_state_for_iface(rep, prog, 'R10.6')
     # ---- observer
     fs = FrameSetup(prog, mtu_ok=True)
     fs.keep_iter_states = True
